@@ -66,6 +66,12 @@ func gen(t *rapid.T) Case {
 	}
 	if !big && rapid.IntRange(0, 3).Draw(t, "viamod") == 0 {
 		c.ModWidth = rapid.SampledFrom([]int{2, 3, 4, 8}).Draw(t, "mod_width")
+		if c.File.Width > 0 {
+			// trickle.Append reads the existing DAG with its own Maxlinks: the modifier
+			// uses the width the file was built with (with a narrower one it takes
+			// leaves for subtrees and hangs children below a data-carrying leaf)
+			c.ModWidth = c.File.Width
+		}
 		c.ModChunk = rapid.IntRange(4, 64).Draw(t, "mod_chunk")
 		n := rapid.IntRange(1, 4).Draw(t, "nmod")
 		for i := 0; i < n; i++ {
@@ -404,8 +410,8 @@ func runCase(c Case, known *string) kit.Result {
 
 var spec = kit.Spec[Case]{
 	Prop: "C09", Name: "main",
-	Rule: "file built by balanced/trickle importers (chunk 1..64, width 2..8 or 174, raw/pb leaves, v0/v1/inline-identity CIDs; single-node files; 1/4 passed through DagModifier seek+write/truncate), then <=30 ops Read/CtxReadFull/Seek(3 whences + bad whence, targets in [-2,size+2] weighted to leaf boundaries +-1, raw offsets in [-size-2,size+2])/WriteTo vs a bytes.Reader model; non-trivial = a Seek lands strictly inside a leaf after a partial read of a leaf, or WriteTo directly follows a read that ended inside a leaf",
-	Quick: 3000, Thorough: 12000,
+	Rule: "file built by balanced/trickle importers (chunk 1..64, width 2..8 or 174, raw/pb leaves, v0/v1/inline-identity CIDs; single-node files; 1/4 passed through a DagModifier of the same width: seek+write/truncate steps), then <=30 ops Read/CtxReadFull/Seek(3 whences + bad whence, targets in [-2,size+2] weighted to leaf boundaries +-1, raw offsets in [-size-2,size+2])/WriteTo vs a bytes.Reader model; non-trivial = a Seek lands strictly inside a leaf after a partial read of a leaf, or WriteTo directly follows a read that ended inside a leaf",
+	Quick: 6000, Thorough: 20000,
 	Gen: gen, Run: run,
 	Sample: func(c Case) any {
 		if len(c.Ops) > 12 {
